@@ -369,3 +369,75 @@ def execute(vc):
 from pyvc.harness import share as _share  # noqa: E402
 from contracts import C14 as _C14  # noqa: E402,F401
 _share("C14", "masks", "C02")
+
+
+FV = "resonaate.sensors.field_of_view:"
+SI_ = "resonaate.sensors:"
+AR = "resonaate.sensors.advanced_radar:"
+
+
+@obligation("C02", "config_plumbing", ensures=["O-C02-config.fov", "O-C02-config.sensor-fields", "O-C02-config.units", "O-C02-config.factory"],
+            fns=[FV + "FieldOfView.fromConfig", RD + "Radar.fromConfig", OP + "Optical.fromConfig", SB + "Sensor.__init__", SI_ + "sensorFactory"], mode="R",
+            note="the constraint parameters a sensor is checked against are the configured ones: a conic field of view gets the configured cone angle, a rectangular one the configured azimuth span AND the configured "
+                 "elevation span (each converted from degrees once); every sensor kind hands the configured azimuth/elevation masks, range limits, slew rate, aperture, efficiency and field of view to its constructor "
+                 "unchanged; the constructor converts masks and slew rate from degrees to radians once and stores the range limits as given; the factory builds the kind named by the configuration with that field of view")
+def config_plumbing(vc):
+    import importlib
+    from resonaate.common.labels import FoVLabel, SensorLabel
+    D2R = vc.pi / 180 if vc.symbolic else float(importlib.import_module("resonaate.physics.constants").DEG2RAD)
+    cone, faz, fel = vc.real("cone_deg", 0.01, 180), vc.real("fov_az_deg", 0.01, 360), vc.real("fov_el_deg", 0.01, 180)
+    F = vc.cls(FV + "FieldOfView") if vc.symbolic else vc.fn(FV + "FieldOfView")
+    fc = (lambda cfg: vc.fn(FV + "FieldOfView.fromConfig")(F, cfg)) if vc.symbolic else F.fromConfig
+    conic = fc(_NS(fov_shape=FoVLabel.CONIC, cone_angle=cone, azimuth_angle=faz, elevation_angle=fel))
+    rect = fc(_NS(fov_shape=FoVLabel.RECTANGULAR, cone_angle=cone, azimuth_angle=faz, elevation_angle=fel))
+    tol = 0 if vc.symbolic else 1e-12
+    vc.ensure("O-C02-config.fov", vc.And(type(conic).__name__ == "ConicFoV", type(rect).__name__ == "RectangularFoV", vc.eq(conic._cone_angle, cone * D2R, tol),
+                                          vc.eq(rect._azimuth_angle, faz * D2R, tol), vc.eq(rect._elevation_angle, fel * D2R, tol)))
+    # every sensor kind: configuration fields -> constructor arguments
+    az = [vc.real("az_lo", 0, 360), vc.real("az_hi", 0, 360)]
+    el = [vc.real("el_lo", -90, 90), vc.real("el_hi", -90, 90)]
+    vals = {k: vc.real(k, 0.1, 1e5) for k in ("aperture_diameter", "efficiency", "slew_rate", "minimum_range", "maximum_range", "detectable_vismag", "tx_power", "tx_frequency", "min_detectable_power")}
+    cfg = _NS(azimuth_range=az, elevation_range=el, covariance=[[1.0, 0.0], [0.0, 1.0]], background_observations=True, field_of_view="CFG-FOV", **vals)
+    common_map = {"diameter": "aperture_diameter", "efficiency": "efficiency", "slew_rate": "slew_rate", "minimum_range": "minimum_range", "maximum_range": "maximum_range"}
+    ok = []
+    for spec, extra in ((RD + "Radar", ("tx_power", "tx_frequency", "min_detectable_power")), (OP + "Optical", ("detectable_vismag",)), (AR + "AdvRadar", ("tx_power", "tx_frequency", "min_detectable_power"))):
+        if vc.symbolic and spec.endswith("AdvRadar"):
+            continue  # (inherits Radar.fromConfig: the same function body)
+        got = {}
+
+        class Rec:
+            def __new__(cls, **kw):
+                got.update(kw)
+                return "SENSOR"
+        f = vc.fn(spec + ".fromConfig") if vc.symbolic else vc.fn(spec).fromConfig.__func__
+        out = f(Rec, cfg, "FOV")
+        good = out == "SENSOR" and got.get("field_of_view") == "FOV" and got.get("background_observations") is True
+        good = good and all(got.get(k) is cfg.__dict__[v] for k, v in common_map.items()) and all(got.get(k) is cfg.__dict__[k] for k in extra)
+        good = good and [x for x in np.asarray(got["az_mask"], dtype=object)] == az and [x for x in np.asarray(got["el_mask"], dtype=object)] == el
+        ok.append(good)
+    vc.ensure("O-C02-config.sensor-fields", all(ok))
+    # the base constructor: units
+    if vc.symbolic:
+        vc.stub(SB + "@ScenarioTime", lambda x: x)
+        vc.stub(SB + "Sensor._setInitialBoresight", lambda self: "BORE")
+        s = vc.new(SB + "Sensor")
+        init = vc.fn(SB + "Sensor.__init__")
+    else:
+        C = type("SensorUnderTest", (vc.fn(SB + "Sensor"),), {"_setInitialBoresight": lambda self: "BORE"})
+        C.__abstractmethods__ = frozenset()
+        s = object.__new__(C)
+        init = C.__init__
+    dt = object if vc.symbolic else float
+    init(s, "MEAS", np.array(az, dtype=dt), np.array(el, dtype=dt), vals["aperture_diameter"], vals["efficiency"], vals["slew_rate"], "FOV", True, vals["minimum_range"], vals["maximum_range"])
+    vc.ensure("O-C02-config.units", vc.And(vc.eq(s.az_mask, np.array(az, dtype=dt) * D2R, tol), vc.eq(s.el_mask, np.array(el, dtype=dt) * D2R, tol), vc.eq(s.slew_rate, vals["slew_rate"] * D2R, tol),
+                                            s.minimum_range is vals["minimum_range"] or vc.eq(s.minimum_range, vals["minimum_range"]), vc.eq(s.maximum_range, vals["maximum_range"]),
+                                            s.field_of_view == "FOV", s.calculate_background is True, s.boresight == "BORE"))
+    # the factory
+    built = []
+    vc.install(SI_ + "@FieldOfView", _NS(fromConfig=lambda c: ("FOV-OF", c)))
+    for nm in ("Optical", "Radar", "AdvRadar"):
+        vc.install(SI_ + "@" + nm, _NS(fromConfig=lambda c, f, nm=nm: (built.append((nm, c, f)), nm + "-sensor")[1]))
+    fac = vc.fn(SI_ + "sensorFactory")
+    outs = [fac(_NS(type=t, field_of_view="CFG-FOV")) for t in (SensorLabel.OPTICAL, SensorLabel.RADAR, SensorLabel.ADV_RADAR)]
+    vc.ensure("O-C02-config.factory", outs == ["Optical-sensor", "Radar-sensor", "AdvRadar-sensor"] and [b[0] for b in built] == ["Optical", "Radar", "AdvRadar"]
+              and all(b[2] == ("FOV-OF", "CFG-FOV") for b in built))
